@@ -28,6 +28,17 @@ MUTANTS = [
     ("c13_repeat_before_finished", ["C13"], "/repo/src/writer/repeat.rs", "        self.writer.handle_event(event, cli).await;\n\n        if is_finished {\n            for ev in mem::take(&mut self.events) {\n                self.writer.handle_event(ev, cli).await;\n            }\n        }", "        if is_finished {\n            for ev in mem::take(&mut self.events) {\n                self.writer.handle_event(ev, cli).await;\n            }\n        }\n        self.writer.handle_event(event, cli).await;"),
     ("c13_tee_min", ["C13"], "/repo/src/writer/tee.rs", "        cmp::max(self.left.failed_steps(), self.right.failed_steps())", "        cmp::min(self.left.failed_steps(), self.right.failed_steps())"),
     ("c13_or_left_only", ["C13"], "/repo/src/writer/or.rs", "        self.left.skipped_steps() + self.right.skipped_steps()", "        self.left.skipped_steps()"),
+    ("c15_and_as_or", ["C15"], "/repo/src/tag.rs", "Self::And(l, r) => l.eval(tags.clone()) & r.eval(tags),", "Self::And(l, r) => l.eval(tags.clone()) | r.eval(tags),"),
+    ("c15_rule_tags_ignored", ["C15"], "/repo/src/cucumber.rs", "                    .filter(|s| filter(&feature, Some(r), s))", "                    .filter(|s| filter(&feature, None, s))"),
+    ("c16_positions_collide", ["C16"], "/repo/src/feature.rs", "            expanded.position.line += id + 2;", "            expanded.position.line += 2;"),
+    ("c16_replace_first_only", ["C16"], "/repo/src/feature.rs", "                    .replace_all(str, |cap: &regex::Captures<'_>| {", "                    .replace(str, |cap: &regex::Captures<'_>| {"),
+    ("c16_table_tags_first", ["C16"], "/repo/src/feature.rs", "            expanded.tags.extend(tags.cloned());", "            expanded.tags = tags.cloned().chain(expanded.tags.clone()).collect();"),
+    ("c17_when_uses_given", ["C17"], "/repo/src/step.rs", "            StepType::When => &self.when,", "            StepType::When => &self.given,"),
+    ("c17_unsorted_candidates", ["C17"], "/repo/src/step.rs", "                            .map(|(re, loc, ..)| (re.clone(), *loc))\n                            .sorted()\n", "                            .map(|(re, loc, ..)| (re.clone(), *loc))\n"),
+    ("c17_skip_nonparticipating", ["C17"], "/repo/src/step.rs", "                (1..captures.len()).map(|group_id| {\n                    captures\n                        .get(group_id)\n                        .map_or(\"\", |(s, e)| &step.value[s..e])\n                        .to_owned()\n                }),", "                (1..captures.len()).filter_map(|group_id| {\n                    captures\n                        .get(group_id)\n                        .map(|(s, e)| step.value[s..e].to_owned())\n                }),"),
+    ("c18_rule_before_scenario", ["C18"], B, "            parse_tags(&scenario.tags)\n                .or_else(|| rule.and_then(|r| parse_tags(&r.tags)))", "            rule.and_then(|r| parse_tags(&r.tags))\n                .or_else(|| parse_tags(&scenario.tags))"),
+    ("c18_builder_over_cli", ["C18"], B, "        cli.retry = cli.retry.or(retries);", "        cli.retry = retries.or(cli.retry);"),
+    ("c18_ff_and", ["C18"], B, "        let fail_fast = cli.fail_fast || fail_fast;", "        let fail_fast = cli.fail_fast && fail_fast;"),
     ("c04_idle_no_yield", ["C04"], B, "                yield_now().await;\n", ""),
 ]
 
